@@ -181,7 +181,7 @@ Definition writes_params_from_source : bool :=
    argument is always a slice the library itself allocated (the encodation
    buffers of datamatrix and pdf417), never on caller memory *)
 Definition appends_only_internal : bool :=
-  string_list_eqb sync_slice_params_appended
+  multi_incl sync_slice_params_appended
     ["datamatrix.addPadding"; "datamatrix.calcECC"; "pdf417.encodeData"]%string.
 
 (* ---------- (iii) searching a Go map by value ---------- *)
